@@ -128,7 +128,7 @@ func URLToString(URL *url.URL) string {
 		// Do nothing. We don't want to encode the URL for signature purposes. :(
 		break
 	default:
-		URL.RawQuery = encodeQuery(URL.Query())
+		URL.RawQuery = encodeQuery(URL.RawQuery)
 	}
 
 	URL.Host, err = idna.ToASCII(URL.Host)
@@ -153,31 +153,40 @@ func URLToString(URL *url.URL) string {
 	return URL.String()
 }
 
-// Encode encodes the values into “URL encoded” form
-// from: https://cs.opensource.google/go/go/+/refs/tags/go1.23.1:src/net/url/url.go;l=1002
-// REASON: it has been modified to not sort
-func encodeQuery(v url.Values) string {
-	if len(v) == 0 {
-		return ""
-	}
-
+// encodeQuery re-encodes a raw query string into “URL encoded” form, keeping the parameters in
+// their original order (and multiplicity).
+// It follows url.ParseQuery + url.Values.Encode (malformed pairs are dropped, a key without value
+// becomes "key="), except that it neither sorts nor groups by key: going through url.Values (a map)
+// would make the order of the parameters, and therefore the canonical string of the URL, random.
+func encodeQuery(query string) string {
 	var buf strings.Builder
 
-	first := true
-
-	for k, vs := range v {
-		keyEscaped := url.QueryEscape(k)
-		for _, v := range vs {
-			if !first {
-				buf.WriteByte('&')
-			}
-
-			first = false
-
-			buf.WriteString(keyEscaped)
-			buf.WriteByte('=')
-			buf.WriteString(url.QueryEscape(v))
+	for query != "" {
+		var pair string
+		pair, query, _ = strings.Cut(query, "&")
+		if pair == "" || strings.Contains(pair, ";") {
+			continue
 		}
+
+		key, value, _ := strings.Cut(pair, "=")
+
+		key, err := url.QueryUnescape(key)
+		if err != nil {
+			continue
+		}
+
+		value, err = url.QueryUnescape(value)
+		if err != nil {
+			continue
+		}
+
+		if buf.Len() > 0 {
+			buf.WriteByte('&')
+		}
+
+		buf.WriteString(url.QueryEscape(key))
+		buf.WriteByte('=')
+		buf.WriteString(url.QueryEscape(value))
 	}
 
 	return buf.String()
